@@ -32,6 +32,7 @@ def check(run):
                 'function of d while the other workers run on: c must not begin; the arguments every library function receives are compared with the stored results; '
                 'non-trivial = an edge test in which the held dependency blocked a consumer, or a run with >= 2 active workers; distinct by (program, params)')
     drv = X.setup(run, THEOREMS)
+    X.loop_correspondence(run, drv)
     rng = core.rng_for(run.seed, 'c03')
     scratch = core.scratch_dir()
     embed_total, edges_tested = {}, 0
